@@ -88,6 +88,19 @@ class ObjVal:
         self.store = {}  # subscript storage for dict/list subclasses
         self.label = label
 
+    def __iter__(self):
+        if "__list__" in self.store:
+            return iter(self.store["__list__"])
+        return iter(list(self.store))
+
+    def __len__(self):
+        if "__list__" in self.store:
+            return len(self.store["__list__"])
+        return len(self.store)
+
+    def __bool__(self):
+        return True
+
     def __repr__(self):
         return f"<Obj {self.label or (self.cinfo.name if self.cinfo else '?')}>"
 
@@ -276,8 +289,14 @@ _BUILTIN_TYPES = {"dict": dict, "list": list, "str": str, "int": int, "tuple": t
 
 
 class Evaluator:
-    def __init__(self, proj, colour="numeric", overrides=None, opaque_calls=None, on_call=None):
+    def __init__(self, proj, colour="numeric", overrides=None, opaque_calls=None, on_call=None,
+                 on_compare=None, lenient_ext=False, ext_calls=None):
         self.proj = proj
+        self.on_compare = on_compare  # callable(op, a, b, node) -> bool | None (assumptions on symbols)
+        self.lenient_ext = lenient_ext  # unknown external calls yield inert opaque objects
+        self.ext_calls = ext_calls or {}  # dotted -> callable(ev, *args, **kwargs), rule-supplied summaries
+        self._in_getattribute = set()
+        self.summaries = dict(PROJECT_SUMMARIES)  # fq -> callable(ev, *args, **kwargs); rules may add
         self.colour = colour
         self.depth = 0
         self.mod_cache = {}  # (module name, symbol) -> value
@@ -297,6 +316,10 @@ class Evaluator:
             return self.mod_cache[key]
         sym = module.symbols.get(name)
         if sym is None:
+            if name == "__name__":
+                return module.name
+            if name == "__file__":
+                return str(module.path)
             v = self.builtin(name)
             return v
         if sym.kind == "func":
@@ -353,6 +376,9 @@ class Evaluator:
     def getattr(self, obj, attr, node):
         if isinstance(obj, ModVal):
             m = obj.module
+            h = self.ext_calls.get(f"{m.name}.{attr}")
+            if h is not None:
+                return _NativeFn(lambda *a, _h=h, **k: _h(self, *a, **k))
             if attr in m.symbols:
                 return self.module_global(m, attr)
             sub = f"{m.name}.{attr}"
@@ -367,13 +393,11 @@ class Evaluator:
         if isinstance(obj, ExtVal):
             return self.ext_attr(obj, attr)
         if isinstance(obj, ObjVal):
-            if attr in obj.attrs:
-                return obj.attrs[attr]
-            if obj.cinfo is not None:
-                return self.class_lookup(obj, obj.cinfo, attr, node, start_after=None)
-            if attr == "__getattribute__":
-                return _NativeFn(lambda name: self.getattr(obj, name, node))
-            raise Raised("AttributeError", f"{obj!r} has no attribute {attr}", node)
+            if obj.cinfo is not None and id(obj) not in self._in_getattribute:
+                ga = obj.cinfo.find_method("__getattribute__")
+                if ga is not None:
+                    return self.call(FuncVal(self, ga, bound=obj), [attr], {})
+            return self.default_getattr(obj, attr, node)
         if isinstance(obj, SuperVal):
             return self.class_lookup(obj.obj, obj.obj.cinfo if isinstance(obj.obj, ObjVal) else obj.obj.cinfo, attr, node, start_after=obj.after_cls)
         if isinstance(obj, ClassVal):
@@ -387,6 +411,10 @@ class Evaluator:
             if attr == "__name__":
                 return obj.cinfo.name
             raise Raised("AttributeError", f"class {obj.cinfo.name} has no attribute {attr}", node)
+        if isinstance(obj, _ObjectType):
+            if attr == "__getattribute__":
+                return _NativeFn(lambda o, name: self.default_getattr(o, name, node))
+            raise Undecided(f"object.{attr}")
         if isinstance(obj, OpaqueObj):
             return OpaqueObj(f"{obj.label}.{attr}")
         if isinstance(obj, Arr):
@@ -410,6 +438,20 @@ class Evaluator:
                 raise Raised("AttributeError", f"{type(obj).__name__} has no attribute {attr}", node)
         raise Undecided(f"attribute {attr} of {type(obj).__name__}")
 
+    def default_getattr(self, obj, attr, node):
+        """object.__getattribute__ semantics: instance dict, then the class."""
+        if attr in obj.attrs:
+            return obj.attrs[attr]
+        if obj.cinfo is not None:
+            self._in_getattribute.add(id(obj))
+            try:
+                return self.class_lookup(obj, obj.cinfo, attr, node, start_after=None)
+            finally:
+                self._in_getattribute.discard(id(obj))
+        if attr == "__getattribute__":
+            return _NativeFn(lambda name: self.getattr(obj, name, node))
+        raise Raised("AttributeError", f"{obj!r} has no attribute {attr}", node)
+
     def class_attr_value(self, cinfo, attr, valnode):
         key = (cinfo.fq, attr)
         if key not in self.mod_cache:
@@ -425,13 +467,25 @@ class Evaluator:
         for c in mro:
             if not isinstance(c, ClassInfo):
                 # external base: dict/list/abc.ABC/object
+                if c == "list":
+                    lst = obj.store.setdefault("__list__", [])
+                    if attr == "__init__":
+                        def _linit(it=(), _l=lst):
+                            _l[:] = list(self.iterate(it))
+                        return _NativeFn(_linit)
+                    if hasattr(lst, attr):
+                        return _NativeFn(getattr(lst, attr))
+                if c == "dict":
+                    if attr == "__init__":
+                        def _dinit(m=None, _o=obj, **kw):
+                            if m is not None:
+                                _o.store.update(m.store if isinstance(m, ObjVal) else m)
+                            _o.store.update(kw)
+                        return _NativeFn(_dinit)
+                    if hasattr(obj.store, attr):
+                        return _NativeFn(getattr(obj.store, attr))
                 if attr in ("__init__", "__init_subclass__"):
                     return _NativeFn(lambda *a, **k: None)
-                if c in ("dict",) and attr in ("get", "items", "keys", "values", "__contains__", "update", "pop", "__getitem__", "__setitem__"):
-                    return _NativeFn(getattr(obj.store, attr))
-                if c in ("list",) and attr in ("append", "extend", "__len__", "__iter__", "insert"):
-                    lst = obj.store.setdefault("__list__", [])
-                    return _NativeFn(getattr(lst, attr))
                 continue
             if attr in c.methods:
                 f = c.methods[attr]
@@ -450,6 +504,8 @@ class Evaluator:
                 return v
         if attr in ("__init__",):
             return _NativeFn(lambda *a, **k: None)
+        if attr == "__getattribute__":
+            return _NativeFn(lambda name: self.default_getattr(obj, name, node))
         if attr == "__class__":
             return ClassVal(self, cinfo)
         if attr == "__getattribute__":
@@ -494,8 +550,10 @@ class Evaluator:
 
     def call_func(self, fv, args, kwargs, node=None):
         fi = fv.finfo
-        summ = PROJECT_SUMMARIES.get(fi.fq)
+        summ = self.summaries.get(fi.fq)
         if summ is not None:
+            if fv.bound is not None and not fi.is_static:
+                return summ(self, fv.bound, *args, **kwargs)
             return summ(self, *args, **kwargs)
         if fi.fq in self.opaque_calls:
             return A.opaque(fi.fq.split("::")[-1], tuple(args))
@@ -551,13 +609,15 @@ class Evaluator:
 
     def call_ext(self, f, args, kwargs, node):
         d = f.dotted
-        h = _EXT_CALLS.get(d)
+        h = self.ext_calls.get(d) or _EXT_CALLS.get(d)
         if h is not None:
             return h(self, *args, **kwargs)
         top = d.split(".")[0]
         if top in ("LeProHQ", "adani"):
             return A.opaque(d, tuple(args))
         if top in ("logging", "rich", "time", "warnings"):
+            return OpaqueObj(d + "()")
+        if self.lenient_ext:
             return OpaqueObj(d + "()")
         raise Undecided(f"call of external {d}")
 
@@ -836,7 +896,11 @@ class Evaluator:
             else:
                 x = num_norm(self.eval(v.value, env))
                 if isinstance(x, Rat):
-                    raise Undecided("symbolic value inside f-string")
+                    parts.append("<" + x.canon()[:40] + ">")
+                    continue
+                if isinstance(x, (ObjVal, ClassVal)):
+                    parts.append(_b_str(x))
+                    continue
                 if v.conversion == ord("r"):
                     parts.append(repr(x))
                 else:
@@ -852,8 +916,8 @@ class Evaluator:
         if isinstance(n.op, ast.USub):
             if isinstance(v, Arr):
                 return v._map(lambda x: num_norm(-_r(x)))
-            if v is INF:
-                return NEG_INF
+            if is_inf(v):
+                return -v
             return num_norm(-_r(v)) if isinstance(v, Rat) else -v
         if isinstance(n.op, ast.UAdd):
             return v
@@ -874,8 +938,8 @@ class Evaluator:
         if isinstance(op, ast.Add):
             if isinstance(a, (str, list, tuple)) and type(a) is type(b):
                 return a + b
-            if a is INF or b is INF:
-                return INF
+            if is_inf(a) or is_inf(b):
+                return (a if is_inf(a) else b)
             return num_norm(_r(a) + _r(b)) if _sym(a, b) else _pyop(a, b, lambda x, y: x + y)
         if isinstance(op, ast.Sub):
             return num_norm(_r(a) - _r(b)) if _sym(a, b) else _pyop(a, b, lambda x, y: x - y)
@@ -884,18 +948,24 @@ class Evaluator:
                 return a * b
             if isinstance(b, (str, list, tuple)) and isinstance(a, int):
                 return b * a
-            if a is INF or b is INF:
-                return INF
+            if is_inf(a) or is_inf(b):
+                if _sym(a, b):
+                    return INF  # symbols multiplying infinity are positive quantities (masses, ratios)
+                return float(a) * float(b)
             return num_norm(_r(a) * _r(b)) if _sym(a, b) else _pyop(a, b, lambda x, y: x * y)
         if isinstance(op, ast.Div):
-            if b is INF:
+            if is_inf(b):
                 return 0
+            if is_inf(a):
+                return a
             if _sym(a, b):
                 return num_norm(_r(a) / _r(b))
             if b == 0:
                 raise Raised("ZeroDivisionError", "division by zero")
             return num_norm(Fraction(a) / Fraction(b))
         if isinstance(op, ast.Pow):
+            if is_inf(a):
+                return a if (isinstance(b, int) and b % 2) else INF
             if _sym(a, b):
                 return num_norm(A.rat_pow(_r(a), b))
             if isinstance(b, Fraction) and b.denominator != 1:
@@ -955,17 +1025,27 @@ class Evaluator:
             r = a in b
             return r if isinstance(op, ast.In) else not r
         if isinstance(a, Rat) or isinstance(b, Rat):
+            if self.on_compare is not None:
+                r = self.on_compare(op, a, b, node)
+                if r is not None:
+                    return r
             if isinstance(op, (ast.Eq, ast.NotEq)) and isinstance(a, Rat) and isinstance(b, Rat):
                 eq = A.equal(a, b, tol=Fraction(0))
                 if eq:
                     return isinstance(op, ast.Eq)
             if isinstance(op, (ast.Eq, ast.NotEq)) and (isinstance(a, str) or isinstance(b, str) or a is None or b is None):
                 return isinstance(op, ast.NotEq)
+            if isinstance(op, (ast.Eq, ast.NotEq)) and (
+                (isinstance(b, (int, Fraction)) and not isinstance(a, (int, Fraction)))
+                or (isinstance(a, (int, Fraction)) and not isinstance(b, (int, Fraction)))
+            ):
+                # a polynomial that is not identically constant differs from a constant for generic
+                # parameter values (all but a measure-zero set): fold with the generic truth value
+                self.generic_folds = getattr(self, "generic_folds", 0) + 1
+                return isinstance(op, ast.NotEq)
             raise Undecided(f"symbolic comparison: {ast.unparse(node)}")
-        if a is INF or b is INF or a is NEG_INF or b is NEG_INF:
-            fa = float("inf") if a is INF else float("-inf") if a is NEG_INF else a
-            fb = float("inf") if b is INF else float("-inf") if b is NEG_INF else b
-            a, b = fa, fb
+        if (is_inf(a) and isinstance(b, Rat)) or (is_inf(b) and isinstance(a, Rat)):
+            raise Undecided("comparison of a symbol with infinity")
         try:
             if isinstance(op, ast.Eq):
                 return _eq(self, a, b)
@@ -1006,6 +1086,7 @@ class Evaluator:
                 kwargs[k.arg] = self.eval(k.value, env)
         if self.call_listener is not None:
             self.call_listener(n, f)
+        _ACTIVE[0] = self
         return self.call(f, args, kwargs, n)
 
     def e_Subscript(self, n, env):
@@ -1126,6 +1207,9 @@ class _ModuleVars(dict):
         return self.ev.mod_cache[(self.module.name, k)]
 
 
+_ACTIVE = [None]
+
+
 class _Pending:
     pass
 
@@ -1138,8 +1222,12 @@ class _Inf:
         return "inf"
 
 
-INF = _Inf()
-NEG_INF = _Inf()
+INF = float("inf")
+NEG_INF = float("-inf")
+
+
+def is_inf(v):
+    return isinstance(v, float) and math.isinf(v)
 
 
 class _NativeFn:
@@ -1202,6 +1290,14 @@ def _eq(ev, a, b):
     return a == b
 
 
+def _rank(d):
+    r = 0
+    while isinstance(d, list):
+        r += 1
+        d = d[0] if d else None
+    return r
+
+
 def _matmul(ev, a, b):
     A_ = a.data if isinstance(a, Arr) else a
     B_ = b.data if isinstance(b, Arr) else b
@@ -1210,41 +1306,61 @@ def _matmul(ev, a, b):
 
     def dot(u, v):
         if len(u) != len(v):
-            raise Raised("ValueError", "matmul shape mismatch")
+            raise Raised("ValueError", f"matmul shape mismatch ({len(u)} vs {len(v)})")
         s = 0
         for x, y in zip(u, v):
+            if (isinstance(x, int) and x == 0) or (isinstance(y, int) and y == 0):
+                continue
             s = ev.binop(ast.Add(), s, ev.binop(ast.Mult(), x, y))
         return s
 
-    a2 = A_ and isinstance(A_[0], list)
-    b2 = B_ and isinstance(B_[0], list)
-    if a2 and not b2:
-        return Arr([dot(row, B_) for row in A_])
-    if not a2 and not b2:
-        return dot(A_, B_)
-    if a2 and b2:
-        cols = list(zip(*B_))
-        return Arr([[dot(row, list(c)) for c in cols] for row in A_])
-    cols = list(zip(*B_))
-    return Arr([dot(A_, list(c)) for c in cols])
+    def mm(X, Y):
+        rx, ry = _rank(X), _rank(Y)
+        if rx > 2:
+            return [mm(x, Y if ry <= 2 else Y[i]) for i, x in enumerate(X)]
+        if ry > 2:
+            return [mm(X, y) for y in Y]
+        if rx == 2 and ry == 1:
+            return [dot(row, Y) for row in X]
+        if rx == 1 and ry == 1:
+            return dot(X, Y)
+        if rx == 2 and ry == 2:
+            cols = [list(c) for c in zip(*Y)]
+            if X and len(X[0]) != len(Y):
+                raise Raised("ValueError", f"matmul shape mismatch ({len(X[0])} vs {len(Y)})")
+            return [[dot(row, c) for c in cols] for row in X]
+        if rx == 1 and ry == 2:
+            cols = [list(c) for c in zip(*Y)]
+            return [dot(X, c) for c in cols]
+        raise Undecided("matmul ranks")
+
+    r = mm(A_, B_)
+    return Arr(r) if isinstance(r, list) else r
 
 
 def _arr_index(o, k):
     d = o.data
-    if isinstance(k, tuple):
-        if len(k) == 2:
-            r, c = k
-            rows = d[r] if isinstance(r, slice) else [d[r]]
-            out = [row[c] for row in rows]
-            if isinstance(r, slice):
-                return Arr(out) if not isinstance(c, slice) else Arr(out)
-            res = out[0]
-            return Arr(res) if isinstance(res, list) else res
-        raise Undecided("array index rank")
-    try:
-        res = d[k]
-    except IndexError:
-        raise Raised("IndexError", f"index {k} out of bounds for axis 0 with size {len(d)}")
+    if not isinstance(k, tuple):
+        k = (k,)
+
+    def rec(d, ks):
+        if not ks:
+            return d
+        k0, rest = ks[0], ks[1:]
+        if k0 is None:  # np.newaxis
+            return [rec(d, rest)]
+        if not isinstance(d, list):
+            raise Raised("IndexError", "too many indices for array")
+        if isinstance(k0, slice):
+            return [rec(x, rest) for x in d[k0]]
+        if isinstance(k0, Rat):
+            raise Undecided("symbolic array index")
+        try:
+            return rec(d[k0], rest)
+        except IndexError:
+            raise Raised("IndexError", f"index {k0} is out of bounds for axis with size {len(d)}")
+
+    res = rec(d, k)
     return Arr(res) if isinstance(res, list) else res
 
 
@@ -1292,6 +1408,8 @@ def _b_float(v=0):
 
 def _b_int(v=0):
     v = num_norm(v)
+    if isinstance(v, (ExtVal, OpaqueObj)):
+        return OpaqueObj("int()")
     if isinstance(v, Rat):
         raise Undecided("int() of symbolic value")
     if isinstance(v, str):
@@ -1305,10 +1423,13 @@ def _b_str(v=""):
         return str(float(v))
     if isinstance(v, Rat):
         raise Undecided("str() of symbolic value")
+    if isinstance(v, ClassVal):
+        return f"<class '{v.cinfo.module.name}.{v.cinfo.name}'>"
     if isinstance(v, ObjVal) and v.cinfo is not None:
         m = v.cinfo.find_method("__repr__") or v.cinfo.find_method("__str__")
-        if m is not None:
-            raise Undecided("str() of object")
+        if m is not None and _ACTIVE[0] is not None:
+            ev = _ACTIVE[0]
+            return ev.call(FuncVal(ev, m, bound=v), [], {})
     return str(v)
 
 
@@ -1326,9 +1447,7 @@ def _b_minmax(pick):
         vals = [num_norm(v) for v in vals]
         if any(isinstance(v, Rat) for v in vals):
             return A.opaque(pick.__name__, tuple(vals))
-        vals2 = [float("inf") if v is INF else v for v in vals]
-        r = pick(vals2)
-        return INF if r == float("inf") else r
+        return pick(vals)
 
     return f
 
@@ -1340,12 +1459,20 @@ def _b_abs(v):
     return abs(v)
 
 
+def _obj_len(x):
+    if x.cinfo is not None:
+        m = x.cinfo.find_method("__len__")
+        if m is not None and _ACTIVE[0] is not None:
+            return _ACTIVE[0].call(FuncVal(_ACTIVE[0], m, bound=x), [], {})
+    return len(x)
+
+
 def _b_sorted(it, key=None, reverse=False):
     return sorted(list(it), key=key, reverse=reverse)
 
 
 _BUILTINS = {
-    "len": lambda x: len(x.store) if isinstance(x, ObjVal) else len(x.data) if isinstance(x, Arr) else len(x),
+    "len": lambda x: _obj_len(x) if isinstance(x, ObjVal) else len(x.data) if isinstance(x, Arr) else len(x),
     "range": range,
     "enumerate": lambda it, start=0: list(enumerate(_DUMMY.iterate(it), start)),
     "zip": lambda *its: list(zip(*[_DUMMY.iterate(i) for i in its])),
@@ -1369,8 +1496,8 @@ _BUILTINS = {
     "all": lambda it: all(_DUMMY.truth(x) for x in _DUMMY.iterate(it)),
     "print": lambda *a, **k: None,
     "repr": repr,
-    "type": lambda o: ClassVal(o.cinfo.module and _DUMMY, o.cinfo) if isinstance(o, ObjVal) and o.cinfo else type(o),
-    "object": "object",
+    "type": lambda o: ClassVal(_DUMMY, o.cinfo) if isinstance(o, ObjVal) and o.cinfo else type(o),
+    "object": None,  # replaced below by _ObjectType()
     "ValueError": ValueError,
     "KeyError": KeyError,
     "NotImplementedError": NotImplementedError,
@@ -1391,6 +1518,13 @@ for _n, _t in _BUILTIN_TYPES.items():
     pass
 # isinstance needs the raw types for dict/list/...: expose them under their names
 _BUILTINS.update({"dict": dict, "list": list, "tuple": tuple, "set": set, "str": _b_str, "int": _b_int, "float": _b_float})
+
+
+class _ObjectType:
+    """The builtin `object`, only for object.__getattribute__(self, name)."""
+
+
+_BUILTINS["object"] = _ObjectType()
 
 
 class _TypeProxy:
@@ -1456,7 +1590,7 @@ def _np_elementwise(fn):
 
 def _f_log(x):
     x = num_norm(x)
-    if x is INF:
+    if is_inf(x):
         return INF
     return num_norm(A.fn_log(_r(x)))
 
@@ -1466,7 +1600,7 @@ def _f_sqrt(x):
 
 
 def _f_exp(x):
-    if x is INF:
+    if is_inf(x):
         return INF
     return num_norm(A.fn_exp(_r(num_norm(x))))
 
@@ -1599,7 +1733,7 @@ _EXT_CALLS = {
     "numpy.mean": _np_mean,
     "numpy.full": lambda ev, n, v, **k: Arr([v] * int(n)),
     "numpy.eye": lambda ev, n, **k: Arr([[1 if i == j else 0 for j in range(int(n))] for i in range(int(n))]),
-    "numpy.isinf": lambda ev, x: x is INF or x is NEG_INF,
+    "numpy.isinf": lambda ev, x: is_inf(x),
     "scipy.special.zeta": _zeta,
     "scipy.special.spence": _spence,
     "scipy.special.binom": _binom,
@@ -1608,6 +1742,8 @@ _EXT_CALLS = {
     "importlib.import_module": _import_module,
     "numba.njit": lambda ev, *a, **k: _NativeFn(lambda f: f),
     "logging.getLogger": lambda ev, *a, **k: OpaqueObj("logger"),
+    # the analysed configuration is the default environment
+    "os.environ.get": lambda ev, k, d=None: d,
 }
 
 PROJECT_SUMMARIES = {
@@ -1620,6 +1756,8 @@ PROJECT_SUMMARIES = {
     ),
     # N3LO grid interpolator: an opaque callable
     "yadism.coefficient_functions.heavy.n3lo::interpolator": lambda ev, *a, **k: OpaqueObj("n3lo_interpolator"),
+    # logging set-up has no bearing on any property
+    "yadism.log::setup": lambda ev, *a, **k: None,
 }
 
 _DUMMY = Evaluator.__new__(Evaluator)
